@@ -106,6 +106,16 @@ CHECKS.update({
             "DESIGN.md section 4, C16"),
 })
 
+CHECKS.update({
+    "C13": ("Hypothesis-generated schemas/documents/pointer lists; independent pointer model, round trip make_patch/apply_patch, sub-document predicate",
+            "Documents, fragments and glob-pointer ACLs drawn from one schema (keys with '/', '~', '|', '*'; arrays up to 14 elements): the "
+            "fragment merge must equal the independent model (inside the pointers the fragment, outside old, idempotent), the JSON patch "
+            "must reproduce the target when applied, filters must return parts of the document, and chained generators must equal the "
+            "folded model. Exploration.",
+            "Trusted: vf/model/jsonmodel.py; patterns descending into arrays are outside the stated domain and not generated.",
+            "DESIGN.md section 4, C13"),
+})
+
 NOT_YET = {}
 
 
